@@ -133,6 +133,7 @@ pub fn run(rng: &mut Rng, n: usize, out: &mut Out, which: &str) {
     while case < n {
         case += 1;
         out.op(&format!("case {}", case), "ok");
+        if which == "c05" { out.run(&mut st, "impl.viafen on"); }
         fresh_keys(&mut st, out);
         match which {
             // ------------------------------------------------------------------ C13 tie: full result incl. node counts and TT digest
